@@ -6,6 +6,8 @@ import os
 import numpy as np
 
 from .. import engine, refmodel as rm
+from .. import histories
+from ..histories import t_callhist        # worker task of the history harness (mc/histories.py)
 
 PID = 'C14'
 MOD = 'mc.props.c14'
@@ -389,6 +391,8 @@ def chk_vegamag(case, acc, seed):
 DISPATCH = {'regrid': chk_regrid, 'arith': chk_arith_units, 'vegamag': chk_vegamag, 'wave': chk_wave_triple, 'flux': chk_flux_triple, 'to': chk_to_bfs, 'planck': chk_planck, 'wien': chk_wien_sb, 'vega': chk_vega}
 
 
+DISPATCH['histop'] = histories.chk_case
+
 def t_triples(arg, acc):
     for a, b, c in itertools.product(WNAMES, repeat=3):
         if a != arg['first']:
@@ -474,6 +478,7 @@ def run(tier, seed, acc, procs=None):
     tasks.append(('t_extra', {'seed': seed}))
     acc.states += 1
     acc.transitions += len(tasks)
+    tasks += histories.tasks_for(PID, seed)        # pairwise call histories over the operations this property is anchored in
     engine.run_parallel(MOD, tasks, acc, procs)
     return {
         'rule': f'all 7^3 wavelength-unit name triples (all aliases, case variants) and 3^3 flux-unit triples; explicit-state search over '
@@ -488,5 +493,8 @@ def run(tier, seed, acc, procs=None):
 
 
 def replay(case, acc):
+    if case.get('kind') == 'histop':
+        import os as _os
+        return histories.chk_case(case, acc, int(_os.environ.get('VERIF_SEED', '0') or 0))
     seed = int(os.environ.get('VERIF_SEED', '0') or 0)
     DISPATCH[case['kind']](case, acc, seed)
